@@ -65,7 +65,8 @@ type finding struct {
 	ID       string `json:"id"`
 	Property string `json:"property"`
 	Status   string `json:"status"` // "known"
-	What     string `json:"what"`
+	What     string   `json:"what"`
+	Also     []string `json:"also"`
 }
 
 type findingsFile struct {
@@ -462,7 +463,11 @@ func run(id, tier string) int {
 	// 5. verdict
 	ff := loadFindings()
 	for _, f := range ff.Findings {
-		if f.Property == id && f.Status == "known" {
+		applies := f.Property == id
+		for _, a := range f.Also {
+			applies = applies || a == id
+		}
+		if applies && f.Status == "known" {
 			fmt.Printf("KNOWN-FINDING: property=%s %s: %s (hit %d times this run)\n", id, f.ID, f.What, merged.Known[f.ID])
 		}
 	}
